@@ -98,8 +98,12 @@ package quadtree
 //@   pure
 
 // visit.Visit is only ever entered on an existing node and recurses only into existing children
+// pruning is sound: a subtree is skipped (first return) only when its cell [left,right]x[bottom,top]
+// is disjoint from the visitor's CLOSED search bound — a cell that merely touches the bound is searched
 //@ func (*visit).Visit(v, n, left, right, bottom, top)
 //@   opt opaque=vinv
+//@   floats ieee
+//@   return 1: left > b.Max[0] || right < b.Min[0] || bottom > b.Max[1] || top < b.Min[1]
 //@   requires n != nil && v.visitor != nil && vinv(v.visitor)
 //@   ensures v.visitor == old(v.visitor) && vinv(v.visitor)
 //@   loop 1: invariant v.visitor != nil && v.visitor == old(v.visitor) && vinv(v.visitor)
